@@ -48,7 +48,7 @@ Definition EMPTY_HASH : N := (2^64 - 1)%N.
 Definition hash_update (h : N) (ch : N) : N :=
   if (N.shiftr h (64 - HASH_BITS_PER_CHAR) =? 0)%N then
     if is_alpha ch then (N.lor (N.shiftl h HASH_BITS_PER_CHAR) (N.land ch 31 + HASH_ALPHA_OFFSET)) mod 2^64
-    else if ((49 <=? ch) && (ch <=? 54))%N then (N.lor (N.shiftl h HASH_BITS_PER_CHAR) (N.land ch 15 - 1)) mod 2^64
+    else if ((49 <=? ch) && (ch <=? 54))%N && (negb HASH_DIGIT_NEEDS_PREFIX || negb (h =? 0)%N) then (N.lor (N.shiftl h HASH_BITS_PER_CHAR) (N.land ch 15 - 1)) mod 2^64
     else EMPTY_HASH
   else EMPTY_HASH.
 Definition hash_of (s : bytes) : N := fold_left hash_update s 0%N.
